@@ -283,18 +283,24 @@ Section Container.
           end
       end.
 
-    (* the label-slice branch of _resolve_expression_indexes: X[`a`:`b`:s] inside eval().
-       Open ends stay open (Python slice None); the stop is made inclusive only when it is a built-in int. *)
-    Definition eval_slice_bounds (a b : option label) : outcome (option Z * option Z) :=
-      bind (match a with None => Ret None | Some x => bind (lc x) (fun l => Ret (Some (loc_start l))) end) (fun a' =>
+  End Access.
+
+  (* the label-slice branch of _resolve_expression_indexes: X[`a`:`b`:s] inside eval().  K = what stands
+     between the backticks, lk = resolve_index_in_span.  Open ends stay open (Python slice None); the
+     stop is made inclusive only when it is a built-in int (`isinstance(stop, int)`). *)
+  Section EvalPath.
+    Variable K : Type.
+    Variable lk : K -> outcome loc.
+    Definition eval_slice_bounds (a b : option K) : outcome (option Z * option Z) :=
+      bind (match a with None => Ret None | Some x => bind (lk x) (fun l => Ret (Some (loc_start l))) end) (fun a' =>
       bind (match b with
             | None => Ret None
-            | Some x => bind (lc x) (fun l => Ret (Some (match l with
+            | Some x => bind (lk x) (fun l => Ret (Some (match l with
                                                          | LSlice _ j => j
                                                          | LPos i true => i + 1
                                                          | LPos i false => i end)))
             end) (fun b' => Ret (a', b'))).
-    Definition eval_slice_with (st : cstate) (name : string) (a b : option label) (s : Z) : outcome (list V) :=
+    Definition eval_slice_with (st : cstate) (name : string) (a b : option K) (s : Z) : outcome (list V) :=
       match lookup name (c_vars st) with
       | None => Raise AttributeError
       | Some sr =>
@@ -302,7 +308,7 @@ Section Container.
           if s <=? 0 then Raise OtherError       (* not modelled: only positive steps are sent through eval *)
           else Ret (gather (s_data sr) (py_slice_positions (length (s_data sr)) a' b' s)))
       end.
-  End Access.
+  End EvalPath.
 
   (* the other access paths *)
   (* obj.X / obj['X'] : the array itself *)
@@ -344,16 +350,29 @@ Arguments RScalar {V}. Arguments RArr {V}. Arguments OScalar {V}. Arguments OSeq
 Arguments lookup {A}. Arguments replace {A}.
 Arguments gather {V}. Arguments scatter1 {V}. Arguments scatter {V}. Arguments assign {V}.
 Arguments set_data {V}. Arguments read_loc {V}. Arguments get_item_with {V}. Arguments set_item_with {V}.
-Arguments eval_slice_with {V}.
+Arguments eval_slice_bounds {K}. Arguments eval_slice_with {V K}.
 Arguments get_attr {V}. Arguments get_key {V}. Arguments get_pos {V}. Arguments set_pos {V}. Arguments set_whole {V}.
 
 (* the accessors with the container's own lookup *)
 Section Bound.
   Variable pd_get_loc : list label -> label -> outcome loc.
+  Variable pd_contains : list label -> label -> bool.
   Context {V : Type}.
   Definition get_item (st : cstate V) := get_item_with (locate pd_get_loc (c_span st)) st.
   Definition set_item (st : cstate V) := set_item_with (locate pd_get_loc (c_span st)) st.
   Definition eval_slice (st : cstate V) := eval_slice_with (locate pd_get_loc (c_span st)) st.
+
+  (* resolve_index_in_span: the text between backticks is looked up as a str label if `text in span`,
+     else as int(text) (py_int = CPython's int() on that text, None = ValueError) if that is in the span *)
+  Definition resolve_bt (sp : span) (bt : string * option Z) : outcome loc :=
+    bind (span_contains pd_contains sp (LStr (fst bt))) (fun c =>
+    if c then locate pd_get_loc sp (LStr (fst bt))
+    else match snd bt with
+         | None => Raise KeyError
+         | Some z => bind (span_contains pd_contains sp (LInt z)) (fun c2 =>
+                     if c2 then locate pd_get_loc sp (LInt z) else Raise KeyError)
+         end).
+  Definition eval_bt_slice (st : cstate V) := eval_slice_with (resolve_bt (c_span st)) st.
 End Bound.
 
 (* ---- recorded pandas answers as an oracle instance (used by the correspondence check) ---- *)
